@@ -1166,6 +1166,8 @@ def run(tier: str, seed: int, replay=None) -> int:
         "hand-written model of ClassDiagram.__post_init__, dataclasses.fields inheritance, get_type_hints name resolution (Diagram/Diagram.v) and of "
         "to_subdiagram_without_inherited_associations over a heap of graphs (Diagram/SubDiagram.v), tied by differential execution",
         "harness/c17.py: program generator/renderer, snapshotting, the independent get_type_hints reading",
+        "source pins, set 'diagram' (pins/sets/diagram.json, recorded in pins/diagram.json): the 30 methods of class_diagram.py, wrapped_field.py (resolved_type and its retry) "
+        "and attribute_introspector.py that the hand-written models mirror; an edit to any of them reopens the correspondence obligation",
         "modelled, not verified: rustworkx PyDiGraph (parallel edges; get_edge_data/remove_edge act on the most recently added edge; copy() is deep for the structure), "
         "typing.get_type_hints, dataclasses.fields, copy.copy",
     ]
@@ -1182,6 +1184,8 @@ def run(tier: str, seed: int, replay=None) -> int:
         regen=[("Gen/FieldKind.v", lambda: t_fieldkind.translate(str(core.REPO)), core.COQ / "Gen" / "FieldKind.v")])
     if not model_ok:
         rep.note("model not available; comparing the implementation with the Spec only (search for a failing input)")
+    from translator import pins
+    pins.oblige(rep, str(core.REPO), "diagram", "the hand-written model Diagram/Diagram.v + Diagram/SubDiagram.v")
     findings = core.load_findings(PROP)
     kf_open = {f.cls for f in findings if f.kind == "open"}
     if tier == "thorough" and model_ok and replay is None:
